@@ -30,7 +30,7 @@ function err_kind(e) {
     return 3;
 }
 
-async function run_table(rbql_csv, b, t) {
+async function run_table(rbql_csv, b, t, seq) {
     const enc = b.enc === null ? 'utf-8' : b.enc;
     const sink = new Sink();
     const w = new rbql_csv.CSVWriter(sink, false, enc, b.dlm, b.pol, b.sep);
@@ -58,9 +58,21 @@ async function run_table(rbql_csv, b, t) {
                  other_warnings: kinds.filter(k => k != 'none' && k != 'separator'), readback: null, qcsv: null};
     if (err === null) {
         try {
+            // the bytes are delivered in several chunks: a boundary after every other CR (so that CRLF pairs get split) and, for
+            // every third table, one in the middle (inside whatever is there, multi-byte characters included)
             const rs = new Readable({read() {}});
-            if (raw.length)
-                rs.push(raw);
+            const cuts = [];
+            for (let i = 1; i < raw.length; i++) {
+                if (raw[i - 1] == 13 && (i + seq) % 2 == 0) cuts.push(i);
+            }
+            if (seq % 3 == 0 && raw.length > 1) cuts.push(raw.length >> 1);
+            cuts.sort((a, b) => a - b);
+            let prev = 0;
+            for (const cpos of cuts) {
+                if (cpos > prev) { rs.push(raw.subarray(prev, cpos)); prev = cpos; }
+            }
+            if (raw.length > prev)
+                rs.push(raw.subarray(prev));
             rs.push(null);
             const it = new rbql_csv.CSVRecordIterator(rs, null, enc, b.dlm, b.pol);
             const recs = await it.get_all_records();
@@ -75,7 +87,8 @@ async function run_table(rbql_csv, b, t) {
 module.exports.run_case = async function (b, repo) {
     const rbql_csv = require(path.join(repo, 'rbql-js', 'rbql_csv.js'));
     const out = [];
+    let seq = 0;
     for (const t of b.tables)
-        out.push(await run_table(rbql_csv, b, t));
+        out.push(await run_table(rbql_csv, b, t, seq++));
     return out;
 };
